@@ -31,6 +31,7 @@ func init() {
 			ruleRangeLayouts(r)
 			ruleUnitEvaluators(r)
 			ruleSingleGrouping(r)
+			ruleNoStdUnquote(r)
 		},
 	})
 }
